@@ -377,8 +377,8 @@ def check_tag_filter(ctx, db):
     pathif = eb if eb is not None and eb.k == 'IfStmt' else None
     ok = norm(outer.child('cond').text()) == 'polygon' and pathif is not None and norm(pathif.child('cond').text()) == 'path'
     if ok:
-        pf = next((s for s in pb.c if s is not None and s.k == 'IfStmt' and 'shape_tags' in s.child('cond').text()), None)
-        qf = next((s for s in pathif.child('then').c if s is not None and s.k == 'IfStmt' and 'shape_tags' in s.child('cond').text()), None)
+        pf = next((s for s in pb.stmts() if s.k == 'IfStmt' and 'shape_tags' in s.child('cond').text()), None)
+        qf = next((s for s in pathif.child('then').stmts() if s.k == 'IfStmt' and 'shape_tags' in s.child('cond').text()), None)
         ok = pf is not None and qf is not None
         if ok:
             sub = [(r'gdstk::', ''), (r'<[A-Za-z]+:(?!:)[^>]*>', ''), (r'\bPolygon\b', 'ELEM'), (r'\bFlexPath\b', 'ELEM'), (r'polygon_array', 'ELEM_array'), (r'flexpath_array', 'ELEM_array'),
